@@ -117,6 +117,10 @@ EMPTY_OBS = {
 }
 
 
+class ArgumentMutated(Exception):
+    """A constructor changed the arrays it was handed."""
+
+
 def build(route, recipe):
     """Construct the real UnitCell through one route. Returns (cell, call text)."""
     import numpy as np
@@ -125,6 +129,17 @@ def build(route, recipe):
     a, b, c = lengths
     al, be, ga = angles
     deg = [math.degrees(x) for x in angles]
+    if route in ("params_rad_np", "params_deg_np"):
+        # parameters held in float64 arrays by the caller (who goes on using them): two cells from the same arrays
+        la = np.array(lengths, dtype=np.float64)
+        aa = np.array(deg if route.endswith("deg_np") else angles, dtype=np.float64)
+        la0, aa0 = la.copy(), aa.copy()
+        kw = {"unit": "degrees"} if route.endswith("deg_np") else {}
+        UnitCell.from_lengths_and_angles(la, aa, **kw)
+        cell = UnitCell.from_lengths_and_angles(la, aa, **kw)
+        if not (np.array_equal(la, la0) and np.array_equal(aa, aa0)):
+            raise ArgumentMutated(route)
+        return cell, "UnitCell.from_lengths_and_angles(np.array(%r), np.array(%r)%s) twice" % (lengths, aa0.tolist(), ", unit='degrees'" if kw else "")
     if route == "vectors":
         V = np.array(recipe["L"], dtype=float) * s
         return UnitCell(V), "UnitCell(%r)" % (V.tolist(),)
@@ -310,7 +325,8 @@ def recipe_for(rng, kind, M, source, family=None, all_routes=False):
         return None
     fam = family or family_of(G)
     wrappers = ["triclinic_rad", "triclinic_deg", "unique_triclinic"]
-    routes = (["vectors", "respec_vectors"] if kind == "L" else []) + ["params_rad", "params_deg", "respec_params"]
+    routes = (["vectors", "respec_vectors"] if kind == "L" else []) + ["params_rad", "params_deg", "respec_params",
+                                                                      "params_rad_np", "params_deg_np"]
     routes += wrappers if all_routes else [rng.choice(wrappers)]
     if fam != "triclinic":
         routes += FAMILY_ROUTES[fam] + ["unique_" + fam]
@@ -325,6 +341,26 @@ def recipe_for(rng, kind, M, source, family=None, all_routes=False):
 def rand_lattice(rng, lim=6):
     while True:
         L = [[rng.randint(-lim, lim) for _ in range(3)] for _ in range(3)]
+        if det3(L) > 0:
+            return L
+
+
+def near_right(rng):
+    """Lattice vectors with an angle 0.15-0.8 degrees away from 90 (|a.b| = 1 or 2 with |a||b| up to 400: the closest the exact
+    domain of Lattice.tla, entries <= 20, allows)."""
+    while True:
+        p, q = rng.randint(12, 19), rng.randint(1, 6)
+        a = [p, q, 0]
+        b = [-q, p, rng.choice([0, 0, 1])]
+        b[rng.randrange(2)] += rng.choice([-1, 1])             # a.b = +-p or +-q ... keep only tiny ones
+        dot = sum(x * y for x, y in zip(a, b))
+        if abs(dot) not in (1, 2):
+            continue
+        c = [rng.randint(-3, 3), rng.randint(-3, 3), rng.randint(8, 19)]
+        L = [a, b, c]
+        rng.shuffle(L)
+        if det3(L) < 0:
+            L[0], L[1] = L[1], L[0]
         if det3(L) > 0:
             return L
 
@@ -424,6 +460,8 @@ def make_recipes(ctx, emitted=()):
         add(recipe_for(rng, "L", near_degenerate(rng), "near-degenerate-lattice", all_routes=ar))
     for _ in range(n_gram):
         add(recipe_for(rng, "G", rand_gram(rng), "random-gram", all_routes=ar))
+    for _ in range(ctx.pick(30, 600)):
+        add(recipe_for(rng, "L", near_right(rng), "near-right-angle-lattice", all_routes=ar))
     for fam in ("cubic", "tetragonal", "orthorhombic", "hexagonal", "rhombohedral", "monoclinic"):
         for _ in range(n_fam):
             add(recipe_for(rng, "G", family_gram(rng, fam), "family-gram", all_routes=ar))
